@@ -1,4 +1,4 @@
-import FM.Model.FsMachine
+import FM.Lemmas.FsMachine
 /-
   C14 — In-place formatting never leaves a damaged or half-written file.
 
@@ -16,46 +16,6 @@ def Whole (s : State) (j : Job) : Prop :=
   s j.target = some j.old ∨
   (s j.target = some j.new ∧ (j.backup = true → s j.orig = some j.old)) ∨
   (j.backup = true ∧ s j.target = none ∧ s j.orig = some j.old)
-
-/-- frame: an operation list that does not name a path leaves it alone -/
-theorem exec_frame (q : Path) : ∀ (ops : List Op) (s : State), (∀ op ∈ ops, q ∉ op.paths) → exec s ops q = s q
-  | [], _, _ => rfl
-  | op :: ops, s, h => by
-    have h1 : q ∉ op.paths := h op (by simp)
-    have h2 := exec_frame q ops (apply s op) (fun o ho => h o (by simp [ho]))
-    simp only [exec, List.foldl_cons] at h2 ⊢
-    rw [h2]
-    cases op <;> simp_all [apply, Op.paths]
-
-theorem exec_append (s : State) (a b : List Op) : exec s (a ++ b) = exec (exec s a) b := by
-  simp [exec, List.foldl_append]
-
-/-- phase 1 only ever names the temporary file -/
-theorem writeOps_paths (j : Job) : ∀ op ∈ j.writeOps, op.paths = [j.tmp] := by
-  intro op h
-  simp only [Job.writeOps, List.mem_cons, List.mem_map] at h
-  rcases h with rfl | ⟨c, _, rfl⟩ <;> rfl
-
-/-- after phase 1 the temporary file holds exactly the new content -/
-theorem exec_appends (p : Path) : ∀ (cs : List Content) (s : State) (c0 : Content), s p = some c0 →
-    exec s (cs.map (.append p)) p = some (c0 ++ cs.flatten)
-  | [], s, c0, h => by simp [exec, h]
-  | c :: cs, s, c0, h => by
-    simp only [List.map_cons, exec, List.foldl_cons]
-    have := exec_appends p cs (apply s (.append p c)) (c0 ++ c) (by simp [apply, h])
-    simp only [exec] at this
-    rw [this]; simp
-
-theorem exec_writeOps_tmp (j : Job) (s : State) : exec s j.writeOps j.tmp = some j.new := by
-  simp only [Job.writeOps, exec, List.foldl_cons]
-  have := exec_appends j.tmp j.chunks (apply s (.create j.tmp)) [] (by simp [apply])
-  simpa [exec, Job.new] using this
-
-theorem take_prefix_of_le {α} (a b : List α) (k : Nat) (h : k ≤ a.length) : (a ++ b).take k = a.take k := by
-  rw [List.take_append]; simp [Nat.sub_eq_zero_of_le h]
-
-theorem take_of_gt {α} (a b : List α) (k : Nat) (h : a.length ≤ k) : (a ++ b).take k = a ++ b.take (k - a.length) := by
-  rw [List.take_append, List.take_of_length_le h]
 
 /-- TARGET_WHOLE: whatever prefix of a file's operations has been carried out — the process may
 have died, or an operation may have failed, at any point, in the middle of the write included — the
@@ -152,17 +112,6 @@ theorem INPUT_UNTOUCHED (j : Job) (s : State) (k : Nat) (input : Path)
 /-- FAIL_NOTHING: when reading, decoding or formatting fails no operation is issued at all. -/
 theorem FAIL_NOTHING (s : State) (k : Nat) : exec s (failedOps.take k) = s := by
   simp [failedOps, exec]
-
-/-- a job's operations name only its own three paths -/
-theorem ops_paths (j : Job) : ∀ op ∈ j.ops, ∀ q ∈ op.paths, q ∈ j.paths := by
-  intro op hop q hq
-  simp only [Job.ops, Job.moveOps, Job.writeOps, List.mem_append, List.mem_cons, List.mem_map] at hop
-  rcases hop with (rfl | ⟨c, _, rfl⟩) | hop
-  · simp [Op.paths] at hq; simp [Job.paths, hq]
-  · simp [Op.paths] at hq; simp [Job.paths, hq]
-  · cases hb : j.backup <;> simp [hb] at hop
-    · subst hop; simp [Op.paths] at hq; rcases hq with rfl | rfl <;> simp [Job.paths]
-    · rcases hop with rfl | rfl <;> (simp [Op.paths] at hq; rcases hq with rfl | rfl <;> simp [Job.paths])
 
 /-- MULTI: in a run over several files stopped anywhere, every file is whole — fully formatted, or
 untouched, or in one of the backup states — never a mixture, provided no two files share a path
